@@ -9,6 +9,12 @@ Part B  per schema, per fault kind of the property, a seeded sample of the posit
         specification's code located at the seeded entry/attribute.  On every seeded copy
         check_compliance(check_for_warnings=False) must return only error-severity issues, namely exactly the
         error-severity ones of the full run.
+Part C  the script-level entry points (hed.scripts.script_util.sort_base_schemas / validate_all_schemas / validate_schema,
+        hed.scripts.validate_schemas.main) on lists of 1-3 schema files written to a temporary folder in the layout the
+        script expects (name.xml, name.mediawiki, hedtsv/name/name_*.tsv): each file is a released schema (clean) or carries
+        ONE seeded fault of Part B's generator; for every faulty/clean pattern (fault in the first / middle / last file, in
+        several, in none) the returned issues are non-empty iff a file is faulty, name every faulty file with the
+        specification's code and no clean file, and main() returns non-zero iff a file is faulty.
 The expected codes are the HED-specification schema codes (Appendix B.2; hed/errors/known_error_codes.py lists
 the names) - they are written down here per fault kind, not derived from the validators.
 """
@@ -485,12 +491,191 @@ def evaluate(version, route, case):
     return fails
 
 
+
+# ----------------------------------------------------------------------------------------------- Part C: the script entry points
+
+SCRIPT_CLEAN = ["8.3.0", "testlib_2.0.0", "8.2.0", "testlib_3.0.0", "8.1.0", "score_2.0.0"]     # released; quick uses the first three
+SCRIPT_FORMATS = ["xml", "mediawiki", "tsv"]
+SCRIPT_KINDS = ["conversion_factor", "allowed_character", "hed_id_range", "dup_node", "ref_class", "deprecated", "in_library",
+                "default_units", "ref_tag", "class_on_node", "undeclared_attr"]
+SCRIPT_EXTRA_CONVERSION = ["abc", "nan", "1e", "-3"]       # a conversion factor that is not a number at all, besides the non-positive ones
+TSV_KINDS = ("conversion_factor", "allowed_character", "default_units")    # plain attribute values: they survive being saved as TSV
+
+
+def script_patterns():
+    """every list of 1..3 files in which each file is either faulty (F) or clean (C): the fault in the first / middle / last file,
+    in several files, in none"""
+    import itertools
+    return ["".join(p) for n in (1, 2, 3) for p in itertools.product("FC", repeat=n)]
+
+
+def script_jobs(fault_pool, quick):
+    """fault_pool: {schema: {kind: [case, ...]}} (cases of gen_cases).  Deterministic rotation over clean schemas x formats and over
+    fault kinds x schemas x text routes, so that every kind / format meets every list position"""
+    jobs = []
+    clean = SCRIPT_CLEAN[:3] if quick else SCRIPT_CLEAN
+    fschemas = [v for v in clean if v in fault_pool]
+    rounds = 1 if quick else 4
+    ci = fi = 0
+    for rnd in range(rounds):
+        for pi, pat in enumerate(script_patterns()):
+            files = []
+            for k, ch in enumerate(pat):
+                name = "f%d" % k
+                if ch == "C":
+                    v = clean[ci % len(clean)]
+                    fmt = SCRIPT_FORMATS[(ci // len(clean) + ci) % 3]
+                    ci += 1
+                    files.append({"name": name, "schema": v, "format": fmt, "fault": None})
+                else:
+                    cands = []
+                    while not cands:
+                        kind = SCRIPT_KINDS[fi % len(SCRIPT_KINDS)]
+                        for off in range(len(fschemas)):          # the next schema in which the kind can sit (hedId: where it is declared ...)
+                            v = fschemas[(fi // len(SCRIPT_KINDS) + fi + off) % len(fschemas)]
+                            cands = fault_pool[v].get(kind) or []
+                            if cands:
+                                break
+                        fi += 1
+                    case = cands[(fi + rnd) % len(cands)]
+                    fmt = ["xml", "mediawiki", "xml", "tsv"][fi % 4]
+                    if fmt == "tsv" and kind not in TSV_KINDS:
+                        fmt = "mediawiki"
+                    edits = [dict(e) for e in case["edits"]]
+                    if kind == "conversion_factor" and fi % 2:
+                        edits[-1]["value"] = SCRIPT_EXTRA_CONVERSION[(fi // 2) % len(SCRIPT_EXTRA_CONVERSION)]
+                    files.append({"name": name, "schema": v, "format": fmt,
+                                  "fault": {"kind": kind, "edits": edits, "code": KINDS[kind][1], "what": case["what"]}})
+            for via in ("functions", "main"):
+                if quick and via == "main" and pi % 2:
+                    continue
+                jobs.append({"script": True, "pattern": pat, "files": files, "via": via})
+        if not quick and rnd < 2:
+            # two formats of ONE schema name (the script groups them under one entry), the fault in one of them, next to another file
+            for bi, (faulty_ext, other_ext) in enumerate((("xml", "mediawiki"), ("mediawiki", "xml"), ("xml", "tsv"))):
+                v = fschemas[(bi + rnd) % len(fschemas)]
+                kind = ("conversion_factor", "allowed_character", "dup_node")[(bi + rnd) % 3]
+                case = fault_pool[v][kind][0]
+                files = [{"name": "f0", "schema": v, "format": faulty_ext,
+                          "fault": {"kind": kind, "edits": case["edits"], "code": KINDS[kind][1], "what": case["what"]}},
+                         {"name": "f0", "schema": v, "format": other_ext, "fault": None},
+                         {"name": "f1", "schema": clean[(bi + 1) % len(clean)], "format": "xml", "fault": None}]
+                order = [files, files[::-1], [files[1], files[2], files[0]]][bi]
+                jobs.append({"script": True, "pattern": "".join("F" if f["fault"] else "C" for f in order) + " (one name, two formats)",
+                             "files": order, "via": "functions"})
+    return jobs
+
+
+def _script_write(base, f):
+    """write one file of a script job in the layout the script expects -> (path given to the script, text that names the file in
+    the issues)"""
+    from hed.schema import from_string
+    stem = os.path.join(base, "%s_HED%s" % (f["name"], f["schema"]))
+    fault = f["fault"]
+    fmt = f["format"]
+    if fault is None:
+        s = schema(f["schema"])
+        if fmt == "xml":
+            s.save_as_xml(stem + ".xml", save_merged=True)
+        elif fmt == "mediawiki":
+            s.save_as_mediawiki(stem + ".mediawiki", save_merged=True)
+    else:
+        route = "wiki" if fmt == "mediawiki" else "xml"
+        text = _doc(f["schema"], route).apply(fault["edits"])
+        if fmt in ("xml", "mediawiki"):
+            with open(stem + "." + fmt, "w", encoding="utf-8") as fp:
+                fp.write(text)
+        else:
+            s = from_string(text, ".xml")
+    if fmt in ("xml", "mediawiki"):
+        return stem + "." + fmt, stem + "." + fmt
+    # TSV: <folder>/hedtsv/<name>/<name>_<Section>.tsv ; the script is given one of the section files and validates the directory
+    name = os.path.basename(stem)
+    d = os.path.join(base, "hedtsv", name)
+    s.save_as_dataframes(os.path.join(d, name + ".tsv"), save_merged=True)
+    return os.path.join(d, name + "_Tag.tsv"), d
+
+
+def _silent(fn, *a, **k):
+    import contextlib
+    import io
+    with contextlib.redirect_stdout(io.StringIO()):
+        return fn(*a, **k)
+
+
+def evaluate_script(job):
+    """-> list of (clause, observed, expected)"""
+    import shutil
+    import sys
+    import tempfile
+    from hed.scripts import script_util
+    from hed.scripts import validate_schemas
+    fails = []
+    base = tempfile.mkdtemp(prefix="c14s_")
+    try:
+        given, named = [], []
+        for f in job["files"]:
+            a, b = _script_write(base, f)
+            given.append(a)
+            named.append(b)
+        faulty = [i for i, f in enumerate(job["files"]) if f["fault"]]
+        if job["via"] == "main":
+            old = sys.argv
+            sys.argv = ["validate_schemas"] + given
+            try:
+                status = _silent(validate_schemas.main)
+            except SystemExit as e:
+                status = e.code
+            except Exception as e:      # noqa: BLE001
+                return [("C14.script.runs", "main: %s: %s" % (type(e).__name__, str(e)[:300]), "returns an exit status")]
+            finally:
+                sys.argv = old
+            if bool(status) != bool(faulty):
+                fails.append(("C14.script.exit_status_tells_faulty", {"exit_status": status},
+                              {"exit_status": "non-zero" if faulty else 0, "faulty_files": [job["files"][i]["name"] for i in faulty]}))
+            return fails
+        try:
+            groups = _silent(script_util.sort_base_schemas, given)
+            issues = _silent(script_util.validate_all_schemas, groups)
+        except Exception as e:      # noqa: BLE001
+            return [("C14.script.runs", "%s: %s" % (type(e).__name__, str(e)[:300]), "returns a list of issues")]
+        text = "\n".join(str(i) for i in issues)
+        head = [str(i)[:160] for i in issues][:4]
+        if bool(issues) != bool(faulty):
+            fails.append(("C14.script.issues_iff_a_file_is_faulty", {"issues": len(issues), "head": head},
+                          {"issues": "some" if faulty else "none", "faulty_files": [job["files"][i]["name"] for i in faulty]}))
+        for i, f in enumerate(job["files"]):
+            shown = os.path.relpath(named[i], base)
+            if f["fault"]:
+                if named[i] not in text:
+                    fails.append(("C14.script.every_faulty_file_reported", {"not_mentioned": shown, "position": i, "issues": len(issues),
+                                                                            "head": head}, "an issue that names " + shown))
+                elif f["fault"]["code"] not in text:
+                    fails.append(("C14.script.every_faulty_file_reported", {"file": shown, "position": i, "head": head},
+                                  "the specification's code %s in the issues of %s" % (f["fault"]["code"], shown)))
+            elif named[i] in text:
+                at = text.index(named[i])
+                fails.append(("C14.script.clean_file_not_reported", {"file": shown, "position": i, "issue": text[at:at + 300]},
+                              "no issue for the released schema " + f["schema"]))
+        if len(job["files"]) == 1:
+            try:
+                one = _silent(script_util.validate_schema, given[0] if job["files"][0]["format"] != "tsv" else named[0])
+                if bool(one) != bool(faulty):
+                    fails.append(("C14.script.issues_iff_a_file_is_faulty", {"validate_schema": [str(i)[:160] for i in one][:3]},
+                                  "some" if faulty else "none"))
+            except Exception as e:      # noqa: BLE001
+                fails.append(("C14.script.runs", "validate_schema: %s: %s" % (type(e).__name__, str(e)[:300]), "returns a list"))
+        return fails
+    finally:
+        shutil.rmtree(base, ignore_errors=True)
+
+
 def _work(chunk):
     out = []
     for version, route, idx, case in chunk:
         t = time.time()
         try:
-            fails = evaluate(version, route, case)
+            fails = evaluate_script(case) if version == "(script)" else evaluate(version, route, case)
         except Exception as e:      # noqa: BLE001 - a fault of this workload's own editing code
             fails = [("C14.seed.check_total", "workload error %s: %s" % (type(e).__name__, str(e)[:200]), "case evaluates")]
         out.append((version, route, idx, fails, time.time() - t))
@@ -534,6 +719,7 @@ def run(w: Workload):
     work = []
     n_by_kind = Counter()
     meta = {}
+    fault_pool = {}
     for version, path, lib, ws in scope:
         try:
             s = schema(version)
@@ -546,6 +732,10 @@ def run(w: Workload):
             nums = [int(x) for x in inv.number.split(".")]
             succ = "%d.%d.%d" % (nums[0], nums[1] + 1, 0)
             cases += gen_cases(inv, allb, w.rng, per_kind, successor=succ)
+        if version in SCRIPT_CLEAN:
+            for case in cases:
+                if case["kind"] in SCRIPT_KINDS and clause_of(case) == KINDS[case["kind"]][0]:
+                    fault_pool.setdefault(version, {}).setdefault(case["kind"], []).append(case)
         for idx, case in enumerate(cases):
             route = "xml" if (idx % 3 != 2) else "wiki"
             work.append((version, route, idx, case))
@@ -560,14 +750,27 @@ def run(w: Workload):
         items = by_schema[key]
         size = 12 if w.quick else 40
         chunks += [items[i:i + size] for i in range(0, len(items), size)]
+    # Part C jobs go first (each validates up to three whole files), one per chunk
+    sjobs = script_jobs(fault_pool, w.quick)
+    for idx, job in enumerate(sjobs):
+        meta[("(script)", job["via"], idx)] = job
+    chunks = [[("(script)", job["via"], idx, job)] for idx, job in enumerate(sjobs)] + chunks
     nproc = min(14, max(1, (os.cpu_count() or 2) - 2))
     ctx = multiprocessing.get_context("fork")
     with ctx.Pool(nproc) as pool:
         results = pool.map(_work, chunks, chunksize=1)
-    slow = 0.0
+    slow = slow_script = 0.0
     for chunk_res in results:
         for version, route, idx, fails, dt in chunk_res:
             case = meta[(version, route, idx)]
+            if version == "(script)":
+                slow_script = max(slow_script, dt)
+                shape = [(f["schema"], f["format"], f["fault"]["kind"] if f["fault"] else None) for f in case["files"]]
+                w.case(("script", case["via"], case["pattern"], str(shape)),
+                       sample={"script": case["via"], "pattern": case["pattern"], "files": shape})
+                for clause, observed, expected in fails:
+                    w.fail(clause, case, observed, expected)
+                continue
             slow = max(slow, dt)
             w.case((version, route, case["kind"], str(case["edits"])), sample={"schema": version, "route": route,
                                                                                "kind": case["kind"], "what": case["what"]})
@@ -579,7 +782,18 @@ def run(w: Workload):
            bound="%d positions per (schema, kind) [x2 for node-level kinds], seeded by --seed; 2/3 through the XML copy, 1/3 "
                  "through the MediaWiki copy; successor copies (8.4.0 of 8.3.0, score 2.1.0 of score_2.0.0) for 'changed hedId'"
                  % per_kind, per_kind=dict(n_by_kind), slowest_case_s=round(slow, 2))
+    w.part("C: script entry points over lists of schema files", cases=len(sjobs), exhaustive=False,
+           bound="every faulty/clean pattern over lists of 1, 2 and 3 files (14 patterns: the fault in the first / middle / last file, in "
+                 "several, in none)%s; clean files = released schemas %s saved as xml / mediawiki / hedtsv directory in rotation, faulty files "
+                 "= one seeded fault of Part B's generator (kinds %s in rotation; conversionFactor also as a non-number) written through "
+                 "the XML or MediaWiki copy or saved as TSV; hed.scripts.script_util.sort_base_schemas + validate_all_schemas (+ "
+                 "validate_schema for single files) on every list, hed.scripts.validate_schemas.main on %s"
+                 % ("" if w.quick else " x 4 rotations + 6 lists with two formats of one schema name",
+                    SCRIPT_CLEAN[:3] if w.quick else SCRIPT_CLEAN, SCRIPT_KINDS, "every second pattern" if w.quick else "every list"),
+           slowest_case_s=round(slow_script, 2))
     w.assumptions += [
+        "Part C: a released schema whose full compliance check is empty (Part A) is a clean file for the script; a file is 'mentioned' when "
+        "its path (for TSV: its hedtsv/<name> directory) occurs in the returned issue texts",
         "fault-kind -> code table is the HED specification's schema error list (Appendix B.2), transcribed in KINDS",
         "hedId ranges per library are those of the specification (also shipped as schema_data/library_data/library_data.json)",
         "'position of the issue' is read from the issue's ec_schema_tag / ec_attribute context and, where two rules share a code, "
@@ -597,7 +811,8 @@ def run(w: Workload):
         "'changed hedId' for standard-schema nodes inside a partnered library (previous standard release has no ids) and for "
         "libraries without an id range (testlib)",
         "character-class warnings (names/descriptions), prologue/epilogue checks, prerelease-version warning",
-        "HedSchemaGroup.check_compliance and the validate_schemas script",
+        "HedSchemaGroup.check_compliance; the script's --add-all-extensions / 'prerelease' comparison of the three formats of one schema; "
+        "upper-case file extensions; deleted files in the list",
     ]
 
 
@@ -611,6 +826,11 @@ def replay(w: Workload, case: dict):
 
 def _replay(w, case):
     inp = case["input"]
+    if inp.get("script"):
+        for clause, observed, expected in evaluate_script(inp):
+            if clause == case.get("clause"):
+                w.fail(clause, inp, observed, expected)
+        return
     if "edits" not in inp:
         from hed.schema import load_schema_version, load_schema
         s = load_schema(inp["path"]) if inp.get("via") == "file" and inp.get("path") else load_schema_version(inp["schema"])
